@@ -280,6 +280,21 @@ func Run(r *core.Run) {
 			mut("update-commitment-of-signing-key", v, func(m M) { m["delta"].(M)["updateCommitment"] = ops.Commitment(k, 18); rebind(m) })
 			mut("update-commitment-of-signing-key-sha512", v, func(m M) { m["delta"].(M)["updateCommitment"] = ops.Commitment(k, 19); rebind(m) })
 		}
+		if typ == "deactivate" {
+			// the signed data may carry a reveal value of its own (the model has the member): the rule is about the request's
+			otherKey := keys.New("P-256", 77)
+			mut("reveal-of-other-key-while-signed-data-names-the-right-one", v, func(m M) {
+				resign(m, k, nil, func(p M) { p["revealValue"] = ops.Reveal(k, 18) })
+				m["revealValue"] = ops.Reveal(otherKey, 18)
+			})
+			mut("signed-data-names-the-reveal-value-of-another-key", v, func(m M) {
+				resign(m, k, nil, func(p M) { p["revealValue"] = ops.Reveal(otherKey, 18) })
+			})
+			mut("signed-data-names-the-reveal-value-under-sha512", v, func(m M) {
+				resign(m, k, nil, func(p M) { p["revealValue"] = ops.Reveal(k, 19) })
+			})
+			mut("signed-data-names-no-reveal-value", v, func(m M) { resign(m, k, nil, func(p M) { delete(p, "revealValue") }) })
+		}
 		if typ == "update" || typ == "recover" {
 			// the same request signed by the key with a nonce (another JWK, another commitment): valid as it is; committing again to
 			// that JWK is key re-use, committing to the key without the nonce (or with another nonce) is not
